@@ -115,6 +115,65 @@ def run_one(kind, case):
     raise ValueError(kind)
 
 
+def overwrite_in_place(obj, new):
+    """make `obj` equal to `new` while keeping the SAME container objects wherever the shapes allow
+    (lists by slice assignment, dicts by clear/update, recursively)"""
+    if isinstance(obj, dict) and isinstance(new, dict):
+        for k in list(obj):
+            if k not in new:
+                del obj[k]
+        for k, v in new.items():
+            if k in obj and type(obj[k]) is type(v) and isinstance(v, (dict, list)):
+                overwrite_in_place(obj[k], v)
+            else:
+                obj[k] = copy.deepcopy(v)
+    elif isinstance(obj, list) and isinstance(new, list):
+        keep = min(len(obj), len(new))
+        for i in range(keep):
+            if type(obj[i]) is type(new[i]) and isinstance(new[i], (dict, list)):
+                overwrite_in_place(obj[i], new[i])
+            else:
+                obj[i] = copy.deepcopy(new[i])
+        del obj[keep:]
+        obj.extend(copy.deepcopy(new[keep:]))
+
+
+def reuse_history(kind, a, b):
+    """call history 'same argument object, edited in place between two calls': the second call must
+    return what a fresh copy of the edited value returns.  Returns a problem string or None."""
+    import implrun
+    if kind == "loader":
+        f = lambda d: js(implrun.enc_load(d)[0][:2])
+        key = "desc"
+    elif kind == "parse":
+        f = lambda ls: js(implrun.run_parse(ls))
+        key = "lines"
+    elif kind == "lib":
+        def f(c):
+            return js(implrun.run_library(c["desc"], c["isa"], c["lines"]))
+        key = None
+    else:
+        return None
+    obj = copy.deepcopy(a[key] if key else a)
+    f(obj)
+    target = b[key] if key else b
+    overwrite_in_place(obj, target)
+    if obj != target:
+        return None
+    got = f(obj)
+    want = f(copy.deepcopy(target))
+
+    def cls(r):
+        if isinstance(r, list) and r and str(r[0]) == "err":
+            return ["err", r[1][0]]
+        if isinstance(r, dict) and "err" in r:
+            return {"err": r["err"][0]}
+        return r
+    if cls(got) != cls(want):
+        return "an argument object edited in place between two calls gave a result different from a fresh copy of the same value"
+    return None
+
+
 def run(cases_file, out):
     cases = json.load(open(cases_file))
     rng = random.Random(1234)
@@ -125,7 +184,11 @@ def run(cases_file, out):
         o = cases[rng.randrange(len(cases))]
         run_one(o["kind"], o["case"])
         r2, m2 = run_one(c["kind"], c["case"])
-        results.append({"r1": r1, "r2": r2, "mutated": sorted(set(m1 + m2))})
+        # same argument object, edited in place into another case of the same kind
+        same = [x for x in cases if x["kind"] == c["kind"]]
+        other = same[rng.randrange(len(same))]
+        hist = reuse_history(c["kind"], other["case"], c["case"])
+        results.append({"r1": r1, "r2": r2, "mutated": sorted(set(m1 + m2)), "history": hist})
     json.dump(results, open(out, "w"))
 
 
